@@ -194,6 +194,11 @@ pub struct Event {
     pub during_user_unwind: bool,
 }
 
+/// fair phase: a thread is preempted after this many consecutive scheduling points
+pub const FAIR_SLICE: u64 = 400;
+/// a WaitBlocked wait gives up after this many scheduling steps
+pub const WAIT_BLOCKED_PATIENCE: u64 = 600;
+
 #[derive(Clone, Copy, PartialEq, Eq, Debug)]
 pub enum Pending {
     None,
@@ -258,6 +263,8 @@ pub struct ThreadSt {
     pub api_stack: Vec<ApiRec>,
     pub api_count: u32,
     pub prio: u32,
+    /// scheduling step at which the pending operation was published
+    pub pending_since: u64,
 }
 
 #[derive(Default, Debug, Clone)]
@@ -321,6 +328,10 @@ pub struct Inner {
     pub unit_of: Vec<Option<usize>>,
     pub monitors_on: bool,
     pub rr_next: usize,
+    /// WaitBlocked waits have started to give up (nothing else could run)
+    pub wb_giveup: bool,
+    /// consecutive picks of the running thread in the fair phase
+    pub fair_run: u64,
     /// (thread, api index, kind, raw ops issued) of every finished API call
     pub api_log: Vec<(Tid, u32, ApiKind, u32)>,
     /// raw faults fired so far, per thread
@@ -416,7 +427,12 @@ impl Inner {
             Some(Pending::Gate(g)) => self.gates[g],
             Some(Pending::WaitBlocked { tid, lid }) => {
                 let th = &self.threads[tid];
+                // "wait until that thread is blocked on that lock" is how scenarios arrange
+                // contention; it must not turn into a demand on *where* the library waits, so it
+                // gives up after a while
                 th.done
+                    || self.wb_giveup
+                    || self.stats.steps.saturating_sub(self.threads[t].pending_since) > WAIT_BLOCKED_PATIENCE
                     || match th.pending_is {
                         Some(Pending::Raw { lid: l, op, fault }) if l == lid && op.is_blocking() && fault != Some(When::Before) => match op {
                             RawOp::LockShared => !self.grantable_shared(lid, tid),
@@ -547,10 +563,15 @@ impl Inner {
             }
             Strategy::RunToBlock => {
                 if let Some(c) = cur {
-                    if enabled.contains(&c) {
+                    // in the fair phase a thread that never blocks (it spins) gives way after a
+                    // while, so that whoever it is waiting for can finish
+                    let keep = !self.fair || self.fair_run < FAIR_SLICE;
+                    if enabled.contains(&c) && keep {
+                        self.fair_run += 1;
                         return c;
                     }
                 }
+                self.fair_run = 0;
                 let n = self.threads.len();
                 for k in 0..n {
                     let t = (self.rr_next + k) % n;
@@ -810,6 +831,8 @@ impl Sched {
                 unit_of: vec![None; nlocks],
                 monitors_on: true,
                 rr_next: 0,
+                wb_giveup: false,
+                fair_run: 0,
                 api_log: Vec::new(),
                 faults_by: vec![0; nthreads],
                 user_unwinding: vec![false; nthreads],
@@ -855,6 +878,14 @@ impl Sched {
         }
         let mut enabled: Vec<Tid> = (0..n).filter(|&t| g.enabled(t)).collect();
         if enabled.is_empty() {
+            // a scenario's "wait until that thread is blocked on that lock" never counts as
+            // waiting for a lock: with nothing else to run, such waits give up first
+            enabled = (0..n).filter(|&t| !g.threads[t].done && matches!(g.threads[t].pending_is, Some(Pending::WaitBlocked { .. }))).collect();
+            if !enabled.is_empty() {
+                g.wb_giveup = true;
+            }
+        }
+        if enabled.is_empty() {
             // deadlock: every unfinished thread waits
             let mut d = String::from("no enabled thread:");
             for (t, th) in g.threads.iter().enumerate() {
@@ -892,6 +923,7 @@ impl Sched {
             return Grant { ok: true, panic: false };
         }
         g.threads[me].pending_is = Some(p);
+        g.threads[me].pending_since = g.stats.steps;
         self.pick_next(&mut g, Some(me));
         while g.running != Some(me) {
             g = self.cvs[me].wait(g).unwrap_or_else(|e| e.into_inner());
